@@ -24,6 +24,7 @@ RULE = (
     "labels (copies within 1e-3|foff|, sums inside the span of their members, spacing foff x factor), rows returned for a label "
     "request. Non-trivial = start>0, or a channel selection/combination, or a non-dyadic foff"
 )
+SCALE_LANE = 'none (metadata arithmetic does not depend on sizes); batch sizes smaller than the number of outputs are in the parameter domain'
 ASSUMPTIONS = [
     "for FilterbankBlock products the applied DM is read from block.dm (the container's own field), as DESIGN.md records",
     "bandpass() (channels as 'samples') and fold() are not time-domain products and are left out",
